@@ -349,11 +349,14 @@ theorem sinv_run (sched : List ThreadId) : ∀ s cur, SInv s cur → serialFrom 
 theorem sinv_init (g : Bool) (polls : Nat) : SInv (init g polls) none := by
   constructor <;> simp [init]
 
-theorem no_lost_of_serial (g : Bool) (polls : Nat) (sched : List ThreadId)
-    (hs : Serial (init g polls) sched = true) (i : Nat) :
-    lost (run (init g polls) sched) i = false := by
-  obtain ⟨cur, h⟩ := sinv_run sched _ _ (sinv_init g polls) hs
-  cases hl : lost (run (init g polls) sched) i with
+theorem sinv_initOld (g : Bool) (polls : Nat) : SInv (initOld g polls) none := by
+  constructor <;> simp [initOld]
+
+theorem no_lost_of_serial (s0 : State) (h0 : SInv s0 none) (sched : List ThreadId)
+    (hs : Serial s0 sched = true) (i : Nat) :
+    lost (run s0 sched) i = false := by
+  obtain ⟨cur, h⟩ := sinv_run sched _ _ h0 hs
+  cases hl : lost (run s0 sched) i with
   | false => rfl
   | true =>
     simp only [lost, Bool.and_eq_true, beq_iff_eq, Bool.not_eq_true'] at hl
@@ -361,49 +364,180 @@ theorem no_lost_of_serial (g : Bool) (polls : Nat) (sched : List ThreadId)
     have := (h.a i hp hw).2
     simp [hload, hd] at this
 
+/-! ### the repaired await path: invariant for *all* interleavings -/
 
-/-- **No lost wake-up, full statement** (what the property asks): in no interleaving is an awaiter
-left parked and un-woken once the value is ready and `notify_subs` is through. -/
-def C19_await_no_lost_wake_full : Prop :=
+/-- invariant of the repaired code (`recheck = true`), no assumption on the schedule -/
+structure FInv (s : State) : Prop where
+  r : s.recheck = true
+  c : s.loading = true ↔ (s.ppc = .start ∨ s.ppc = .entered)
+  /-- a pushed waker is still in the list, or it has been drained (= woken) -/
+  b2 : ∀ i, (s.aw i).pc = .ret → (i ∈ s.wakers ∨ (s.aw i).woken = true)
+  /-- a parked, un-woken awaiter is in the list and the drain is still to come -/
+  a : ∀ i, (s.aw i).pc = .parked → (s.aw i).woken = false →
+        i ∈ s.wakers ∧ (s.ppc = .start ∨ s.ppc = .entered ∨ s.ppc = .stored)
+
+theorem finv_init (g : Bool) (polls : Nat) : FInv (init g polls) := by
+  constructor <;> simp [init]
+
+theorem finv_producer (s : State) (h : FInv s) : FInv (stepProducer s) := by
+  obtain ⟨hr, hc, hb2, ha⟩ := h
+  unfold stepProducer
+  split
+  · split
+    · constructor <;> simp_all
+      · intro i hp
+        rcases hb2 i hp with h | h
+        · exact Or.inl h
+        · exact Or.inr (notifyOne_woken _ _ _ h)
+      · intro i hp hw
+        exact ha i hp (notifyOne_woken_false _ _ _ hw)
+    · constructor <;> simp_all
+  · constructor <;> simp_all
+  · constructor <;> simp_all
+    · intro i hp
+      rcases hb2 i hp with h | h
+      · exact wakeAll_woken_mem _ _ _ h
+      · exact wakeAll_woken_mono _ _ _ h
+    · intro i hp
+      cases h : (s.aw i).woken with
+      | false => exact wakeAll_woken_mem _ _ _ (ha i hp h)
+      | true => exact wakeAll_woken_mono _ _ _ h
+  · constructor <;> simp_all
+  · constructor <;> simp_all
+
+theorem finv_beginPoll (s : State) (i : Nat) (a : Awaiter) (h : FInv s)
+    (_hpc : (s.aw i).pc = .start ∨ (s.aw i).pc = .parked) : FInv (beginPoll s i a) := by
+  obtain ⟨hr, hc, hb2, ha⟩ := h
+  unfold beginPoll
+  split
+  · constructor <;> simp_all [upd] <;> grind
+  · split
+    · split
+      · constructor <;> simp_all [upd] <;> grind
+      · split
+        · constructor <;> simp_all [upd] <;> grind
+        · constructor <;> simp_all [upd] <;> grind
+    · constructor <;> simp_all [upd] <;> grind
+
+theorem finv_awaiter (s : State) (i : Nat) (h : FInv s) : FInv (stepAwaiter s i) := by
+  unfold stepAwaiter
+  cases hpc : (s.aw i).pc with
+  | start => simp only [hpc]; exact finv_beginPoll s i _ h (Or.inl hpc)
+  | parked =>
+    simp only [hpc]
+    split
+    · exact finv_beginPoll s i _ h (Or.inr hpc)
+    · exact h
+  | ready => simp only [hpc]; exact h
+  | gaveUp => simp only [hpc]; exact h
+  | push =>
+    obtain ⟨hr, hc, hb2, ha⟩ := h
+    simp only [hpc]
+    constructor <;> simp_all [upd] <;> grind
+  | ret =>
+    obtain ⟨hr, hc, hb2, ha⟩ := h
+    have hb2i := hb2 i hpc
+    simp only [hpc]
+    cases hn : (s.aw i).notified <;> simp only [Bool.false_eq_true, ↓reduceIte]
+    · constructor <;> simp_all [upd] <;> grind
+    · constructor <;> simp_all [upd]
+      · intro j hj
+        by_cases hji : j = i
+        · simp [hji] at hj
+        · simp only [hji, if_false] at hj
+          rcases hb2 j hj with h | h
+          · exact Or.inl h
+          · right; apply notifyOne_woken; simp [upd, hji, h]
+      · intro j hj hw
+        have := notifyOne_woken_false _ _ _ hw
+        simp only [upd] at this
+        grind
+
+theorem finv_run (sched : List ThreadId) : ∀ s, FInv s → FInv (run s sched) := by
+  induction sched with
+  | nil => intro s h; exact h
+  | cons t ts ih =>
+    intro s h
+    apply ih
+    cases t with
+    | zero => exact finv_producer s h
+    | succ i => exact finv_awaiter s i h
+
+/-- **No lost wake-up, FULL (repaired code).**  For every number of awaiters, both future kinds,
+every poll budget and **every** interleaving of the atomic steps of the awaiters' polls and of
+`notify_subs`: no awaiter is ever left parked and un-woken once the value is ready and
+`notify_subs` is through.  (After `fix: … re-check loading after registering the waker`: an awaiter
+whose push came after the drain sees `loading = false` at its second look and wakes itself; one
+whose second look still reads `true` pushed before the store, hence before the drain.) -/
+theorem C19_await_no_lost_wake (guardKind : Bool) (polls : Nat) (sched : List ThreadId) (i : Nat) :
+    lost (run (init guardKind polls) sched) i = false := by
+  have h := finv_run sched _ (finv_init guardKind polls)
+  cases hl : lost (run (init guardKind polls) sched) i with
+  | false => rfl
+  | true =>
+    simp only [lost, Bool.and_eq_true, beq_iff_eq, Bool.not_eq_true'] at hl
+    obtain ⟨⟨⟨hp, hw⟩, _⟩, hd⟩ := hl
+    have := (h.a i hp hw).2
+    simp [hd] at this
+
+/-- and a parked awaiter that has been woken re-polls and reads Ready (progress, not only safety):
+once `loading = false`, a poll returns Ready -/
+theorem C19_await_ready_after_store (s : State) (i : Nat) (a : Awaiter)
+    (hl : s.loading = false) (hp : a.polls ≠ 0) : ((beginPoll s i a).aw i).pc = .ready := by
+  unfold beginPoll
+  simp [hp, hl, upd]
+
+/-! ### regression: the code before the repair (`initOld`) -/
+
+/-- the statement the old code was asked to satisfy -/
+def C19_await_no_lost_wake_old_full : Prop :=
   ∀ (guardKind : Bool) (polls : Nat) (sched : List ThreadId) (i : Nat),
-    lost (run (init guardKind polls) sched) i = false
+    lost (run (initOld guardKind polls) sched) i = false
 
-/-- **F-C19-1**, `AsyncDerivedReadyFuture` (`.ready()`): the awaiter loads `loading = true` (thread 1);
-the producer enters `notify_subs`, stores `loading = false`, drains an *empty* waker list and
-finishes (thread 0, four steps); the awaiter pushes its waker and returns `Pending` — parked for
-ever, the value is ready.  Replayed on the real code by corpus/C19/f-c19-1.ops. -/
+/-- **F-C19-1 (repaired)**, `AsyncDerivedReadyFuture` (`.ready()`): the awaiter loads
+`loading = true` (thread 1); the producer enters `notify_subs`, stores `loading = false`, drains an
+*empty* waker list and finishes (thread 0, four steps); the awaiter pushes its waker and returns
+`Pending` — with the old code parked for ever although the value is ready; with the repaired code
+its second look at `loading` wakes it.  Replayed on the real code by corpus/C19/f-c19-1.ops. -/
 theorem C19_await_lost_wake_witness :
-    lost (run (init false 2) [1, 0, 0, 0, 0, 1, 1]) 0 = true := by decide
+    lost (run (initOld false 2) [1, 0, 0, 0, 0, 1, 1]) 0 = true ∧
+    lost (run (init false 2) [1, 0, 0, 0, 0, 1, 1]) 0 = false ∧
+    ((run (init false 2) [1, 0, 0, 0, 0, 1, 1, 1]).aw 0).pc = .ready := by decide
 
 /-- the same race for the by-value / by-ref futures (which hold the async read guard during the
 poll, so the producer must already be past its write when the awaiter loads the flag) -/
 theorem C19_await_lost_wake_witness_value :
-    lost (run (init true 2) [0, 1, 0, 0, 0, 1, 1]) 0 = true := by decide
+    lost (run (initOld true 2) [0, 1, 0, 0, 0, 1, 1]) 0 = true ∧
+    lost (run (init true 2) [0, 1, 0, 0, 0, 1, 1]) 0 = false := by decide
 
-theorem C19_await_no_lost_wake_full_false : ¬ C19_await_no_lost_wake_full := by
+theorem C19_await_no_lost_wake_old_full_false : ¬ C19_await_no_lost_wake_old_full := by
   intro h
   have := h false 2 [1, 0, 0, 0, 0, 1, 1] 0
-  rw [C19_await_lost_wake_witness] at this
+  rw [C19_await_lost_wake_witness.1] at this
   cases this
 
-/-- **No lost wake-up, partial** (decidable hypothesis `Serial`): when polls do not interleave —
-a party that is inside a poll is the only one scheduled until that poll returns, which is what any
-single-threaded executor does (C10's setting) — no awaiter is ever lost, for every number of
-awaiters, every poll budget, both future kinds and every such schedule. -/
+/-- what *was* true of the old code (decidable hypothesis `Serial`): when polls do not interleave —
+a party that is inside a poll is the only one scheduled until that poll returns, i.e. a
+single-threaded executor (C10's setting) — no awaiter was lost. -/
 theorem C19_await_no_lost_wake_partial (guardKind : Bool) (polls : Nat) (sched : List ThreadId)
-    (hs : Serial (init guardKind polls) sched = true) (i : Nat) :
-    lost (run (init guardKind polls) sched) i = false :=
-  no_lost_of_serial guardKind polls sched hs i
+    (hs : Serial (initOld guardKind polls) sched = true) (i : Nat) :
+    lost (run (initOld guardKind polls) sched) i = false :=
+  no_lost_of_serial _ (sinv_initOld guardKind polls) sched hs i
 
-/-- non-vacuity of the hypothesis: a serial schedule in which the awaiter parks, is woken by
-`notify_subs` and then reads Ready; and one with two awaiters -/
-example : Serial (init false 2) [1, 1, 1, 0, 0, 0, 0, 1] = true ∧
-    ((run (init false 2) [1, 1, 1, 0, 0, 0, 0, 1]).aw 0).pc = .ready ∧
-    ((run (init false 2) [1, 1, 1, 0, 0, 0, 0, 1]).aw 0).pendings = 1 := by decide
-example : Serial (init true 2) [2, 2, 2, 1, 1, 1, 0, 0, 0, 0, 1, 2] = true ∧
-    ((run (init true 2) [2, 2, 2, 1, 1, 1, 0, 0, 0, 0, 1, 2]).aw 1).pc = .ready := by decide
-/-- the witness schedule is not serial (it is outside the partial theorem's hypothesis) -/
-example : Serial (init false 2) [1, 0, 0, 0, 0, 1, 1] = false := by decide
+/-- non-vacuity: a serial schedule in which the awaiter parks, is woken by `notify_subs` and then
+reads Ready; one with two awaiters; the witness schedule is not serial -/
+example : Serial (initOld false 2) [1, 1, 1, 0, 0, 0, 0, 1] = true ∧
+    ((run (initOld false 2) [1, 1, 1, 0, 0, 0, 0, 1]).aw 0).pc = .ready ∧
+    ((run (initOld false 2) [1, 1, 1, 0, 0, 0, 0, 1]).aw 0).pendings = 1 := by decide
+example : Serial (initOld true 2) [2, 2, 2, 1, 1, 1, 0, 0, 0, 0, 1, 2] = true ∧
+    ((run (initOld true 2) [2, 2, 2, 1, 1, 1, 0, 0, 0, 0, 1, 2]).aw 1).pc = .ready := by decide
+example : Serial (initOld false 2) [1, 0, 0, 0, 0, 1, 1] = false := by decide
+/-- non-vacuity of the full theorem: runs of the repaired code in which an awaiter really parks —
+woken by the drain, or by its own second look -/
+example : let s := run (init false 2) [1, 1, 1, 0]
+    (s.aw 0).pc = .parked ∧ (s.aw 0).woken = false ∧ s.loading = true ∧ 0 ∈ s.wakers := by decide
+example : let s := run (init false 2) [1, 0, 0, 0, 0, 1, 1]
+    (s.aw 0).pc = .parked ∧ (s.aw 0).woken = true ∧ s.ppc = .done := by decide
 
 end Await
 
